@@ -258,7 +258,7 @@ def rand_spec(rng, depth, sids, last=True, nest=0):
     if depth <= 0 or r < 0.22:
         return rand_path(rng)
     if r < 0.34:
-        return {'op': 'probe', 'f': rng.choice(['id', 'id', 'inc', 'inc', 'boom'])}
+        return {'op': 'probe', 'f': rng.choice(['id', 'id', 'inc', 'inc', 'boom']), 'r': False}
     if r < 0.40:
         return {'op': 'read', 'name': rng.choice(B.NAME_ORDER)}
     if r < 0.54:
@@ -266,7 +266,8 @@ def rand_spec(rng, depth, sids, last=True, nest=0):
         return {'op': 'tuple', 'c': [rand_spec(rng, depth - 1, sids, last=(i == n - 1), nest=nest) for i in range(n)]}
     if r < 0.62:
         keys = rng.sample(['p', 'q', 'r'], rng.randint(1, 3))
-        return {'op': 'dict', 'items': [[k, rand_spec(rng, depth - 1, sids, nest=nest)] for k in keys]}
+        return {'op': 'dict', 'items': [[k, rand_spec(rng, depth - 1, sids, nest=nest)] for k in keys],
+                'sp': rng.choice(['dict', 'dict', 'invoke'])}
     if r < 0.72:
         return {'op': 'each', 'sp': rng.choice(['list', 'iter']), 'c': rand_spec(rng, depth - 1, sids, nest=nest)}
     if r < 0.82:
@@ -279,6 +280,8 @@ def rand_spec(rng, depth, sids, last=True, nest=0):
         return {'op': 'bind', 'name': rng.choice(B.NAME_ORDER), 'c': rand_spec(rng, depth - 1, sids, nest=nest)}
     if r < 0.905:
         return {'op': 'acc', 'kind': 'fold', 'f': rng.choice(['id', 'inc', 'inc', 'boom'])}
+    if r < 0.915:
+        return {'op': 'lastvar', 'init': rng.randint(0, 3)}
     if r < 0.93:
         return {'op': 'invoke', 'c': rng.choice([{'op': 'path', 'text': 'opts', 'segs': ['opts']}, rand_path(rng)]),
                 'k': rng.choice(['k', 'a', 'z']), 'v': {'k': 'int', 'i': rng.randint(0, 9)}}
@@ -296,7 +299,7 @@ def rand_arglist(rng, sids, nest):
     def elem():
         r = rng.random()
         if r < 0.5:
-            return {'op': 'probe', 'f': rng.choice(['id', 'id', 'inc'])}
+            return {'op': 'probe', 'f': rng.choice(['id', 'id', 'inc']), 'r': False}
         if r < 0.85 or nest >= 2:
             return {'op': 'read', 'name': rng.choice(B.NAME_ORDER)}
         return {'op': 'nest', 'call': rand_call(rng, sids, 1, nest + 1)}
@@ -306,7 +309,7 @@ def rand_arglist(rng, sids, nest):
 def rand_call(rng, sids, depth=3, nest=0):
     sids[0] += 1
     sc = [[k, {'k': 'int', 'i': rng.randint(6, 9)}] for k in B.NAME_ORDER if rng.random() < 0.3]
-    via = 'glommer' if rng.random() < 0.15 else 'glom'
+    via = rng.choice(['glommer', 'spec', 'spec'] + ['glom'] * 12)
     return {'t': rand_value(rng), 'sc': [] if via == 'glommer' else sc, 'sid': sids[0],
             'spec': rand_spec(rng, depth, sids, nest=nest), 'via': via}
 
@@ -415,31 +418,32 @@ def match_finding(f, case):
 
 
 def canaries(rows):
-    """corrupted copies of a recorded session: the Trace module must reject each of them
-    (guards against a validator that accepts everything)"""
+    """corrupted copies of recorded sessions: the Trace module must reject each of them
+    (guards against a validator that accepts everything).  Kinds: a wrong call value (always),
+    a flipped cache membership result and a wrong memoized handler (when such events exist -
+    their presence depends on how the library spells its cache accesses)."""
     import copy
-    out = []
+    out, kinds = [], {}
     for row in rows:
         evs = row['events']
-        i_has = next((i for i, e in enumerate(evs) if e['e'] == 'has'), None)
-        i_call = next((i for i, e in enumerate(evs) if e['e'] == 'call' and e['out']['ok']), None)
-        i_set = next((i for i, e in enumerate(evs) if e['e'] == 'tset'), None)
-        if i_has is None or i_call is None or i_set is None:
-            continue
-        a = copy.deepcopy(row)
-        a['events'] = a['events'][:i_has + 1]
-        a['events'][i_has]['res'] = not a['events'][i_has]['res']
-        a['canary'] = 'pc_has'
-        b = copy.deepcopy(row)
-        b['events'] = b['events'][:i_call + 1]
-        b['events'][i_call]['out']['v'] = {'k': 'int', 'i': 999}
-        b['canary'] = 'value'
-        c = copy.deepcopy(row)
-        c['events'] = c['events'][:i_set + 1]
-        c['events'][i_set]['h'] = 'bogus'
-        c['canary'] = 'tc_set_value'
-        out.extend([a, b, c])
-        if len(out) >= 15:      # several candidates: a chosen call may lie outside the modelled fragment
+        idx = {'pc_has': next((i for i, e in enumerate(evs) if e['e'] == 'has'), None),
+               'value': next((i for i, e in enumerate(evs) if e['e'] == 'call' and e['out']['ok']), None),
+               'tc_set_value': next((i for i, e in enumerate(evs) if e['e'] == 'tset'), None)}
+        for kind, i in idx.items():
+            if i is None or kinds.get(kind, 0) >= 5:   # several candidates: a call may be outside the model
+                continue
+            c = copy.deepcopy(row)
+            c['events'] = c['events'][:i + 1]
+            if kind == 'pc_has':
+                c['events'][i]['res'] = not c['events'][i]['res']
+            elif kind == 'value':
+                c['events'][i]['out']['v'] = {'k': 'int', 'i': 999}
+            else:
+                c['events'][i]['h'] = 'bogus'
+            c['canary'] = kind
+            kinds[kind] = kinds.get(kind, 0) + 1
+            out.append(c)
+        if all(kinds.get(k, 0) >= 5 for k in idx):
             break
     return out
 
@@ -451,7 +455,7 @@ def trace_validate(check, rows, label, chunk, module='Trace_C06'):
     if not rows:
         return 0
     can = canaries(rows)
-    if not can:
+    if not any(c['canary'] == 'value' for c in can) and not check.violations:
         raise vlib.MachineryError('no recorded session suitable for the corrupted-row canaries')
     caught = set()
     before = check.cov['traces_validated_against_impl']
@@ -480,8 +484,19 @@ MUTANTS = {'nostarkey': 'NonInterference', 'noreset': 'NonInterference', 'accons
 def main(tier, seed):
     _assert_pristine()
     check = vlib.Check(PROP, tier, seed)
-    configs = {'quick': [dict(PoolSize=9, MaxHist=3, MaxToggles=2, MaxRegs=2)],
-               'thorough': [dict(PoolSize=13, MaxHist=3, MaxToggles=2, MaxRegs=2),
+    try:
+        return _main(check, tier, seed)
+    except vlib.MachineryError as e:
+        if not check.violations:
+            raise
+        # a machinery problem after violations were found must not mask them
+        print('MACHINERY-PROBLEM after violations were found: %s' % str(e)[:300])
+        return check.finish(rule='incomplete run: machinery problem after violations were found', exhaustive=False)
+
+
+def _main(check, tier, seed):
+    configs = {'quick': [dict(PoolSize=10, MaxHist=3, MaxToggles=1, MaxRegs=1)],
+               'thorough': [dict(PoolSize=16, MaxHist=3, MaxToggles=2, MaxRegs=2),
                             dict(PoolSize=9, MaxHist=4, MaxToggles=1, MaxRegs=1)]}[tier]
     rows, drift, results = [], [], []
     for consts in configs:
@@ -523,7 +538,7 @@ def main(tier, seed):
     check.extra['mechanism_drift'] = drift[:5]
     check.extra['mechanism_drift_count'] = len(drift)
     # vacuity: the same histories at the finest grain; every step kind and branch must occur
-    vres = vlib.run_tlc('MC_C06', cfg='MC_C06_fine', constants=dict(PoolSize=13, MaxHist=2, MaxToggles=2, MaxRegs=2, Mutant='""'), heap='6g')
+    vres = vlib.run_tlc('MC_C06', cfg='MC_C06_fine', constants=dict(PoolSize=16, MaxHist=2, MaxToggles=2, MaxRegs=2, Mutant='""'), heap='6g')
     vlib.tlc_must_pass(vres, 'MC_C06 fine-grained')
     check.add_tlc(vres, 'MC_C06 fine-grained (vacuity)')
     cov = B.mechanism_coverage([j['hist'] for j in vres['json'] if 'hist' in j])
@@ -542,11 +557,11 @@ def main(tier, seed):
         # spec mutants: the law must be violated
         mres = {}
         for m, law in MUTANTS.items():
-            r = vlib.run_tlc('MC_C06', cfg='MC_C06_mutant', constants=dict(PoolSize=13, MaxHist=3, MaxToggles=2, MaxRegs=2, Mutant='"%s"' % m))
+            r = vlib.run_tlc('MC_C06', cfg='MC_C06_mutant', constants=dict(PoolSize=16, MaxHist=3, MaxToggles=2, MaxRegs=2, Mutant='"%s"' % m))
             mres[m] = r['violated']
             if r['violated'] != law:
                 raise vlib.MachineryError('spec mutant %s: expected %s violated, TLC says %s' % (m, law, r['violated']))
-        r = vlib.run_tlc('MC_C06', cfg='MC_C06_mutant_frame', constants=dict(PoolSize=13, MaxHist=3, MaxToggles=2, MaxRegs=2, Mutant='"acconspec"'))
+        r = vlib.run_tlc('MC_C06', cfg='MC_C06_mutant_frame', constants=dict(PoolSize=16, MaxHist=3, MaxToggles=2, MaxRegs=2, Mutant='"acconspec"'))
         mres['acconspec/frame'] = r['violated']
         if r['violated'] != 'FrameCondition':
             raise vlib.MachineryError('spec mutant acconspec: FrameCondition not violated (%s)' % r['violated'])
